@@ -58,6 +58,16 @@ func genBase(r *Rng, prop string) *Scenario {
 		return genC15(r)
 	case "C20":
 		return genC20(r)
+	case "C10":
+		switch r.IntN(4) {
+		case 0:
+			return genC04(r)
+		case 1:
+			return genC07(r)
+		case 2:
+			return genC15(r)
+		}
+		return genC11(r, "C10")
 	}
 	return genC07(r)
 }
